@@ -1,107 +1,109 @@
-import LlgoVerif.Lemmas.CAbi
+import LlgoVerif.Lemmas.CAbiLayout
 /-!
 # C09 — values cross the Go/C boundary intact (x86-64)
 
-Property theorems only.  Model: `LlgoVerif/Model/CAbi.lean` (`internal/cabi` `TypeInfoAmd64.GetTypeInfo`,
-`transformFuncType`, the scalar calling convention, the C-string helpers); specification:
-`LlgoVerif/Spec/SysV.lean` (psABI classification, register image, sequential register assignment);
-lemmas: `LlgoVerif/Lemmas/CAbi.lean`.
+Property theorems only.  Model: `LlgoVerif/Model/CAbi.lean` (`internal/cabi` `TypeInfoAmd64.GetTypeInfo` — as it is
+now, `Cfg.repaired`, and as it was before the nested-padding fix, `Cfg.legacy` —, `transformFuncType`, the scalar
+calling convention, the C-string helpers); specification: `LlgoVerif/Spec/SysV.lean` (psABI classification, register
+image, sequential register assignment); lemmas: `LlgoVerif/Lemmas/CAbi.lean`, `LlgoVerif/Lemmas/CAbiLayout.lean`.
 -/
 namespace LlgoVerif.CAbi
 open LlgoVerif.SysV
 
 /-! ## Classification of one aggregate -/
 
-/-- **Classification soundness.** For EVERY value type whose flattened scalar list, laid out naturally,
-    reproduces its real layout (`natural`: every flat struct, every array of scalars, every nesting that
-    introduces no padding of its own) — of any number of fields — the pass kind llgo chooses carries every byte of
-    the object in the register class the psABI assigns: same mode (memory for > 16 bytes, registers otherwise),
-    same number of registers, register `k` has the class of eightbyte `k` and is loaded from object offset
-    `8k`, and every field lies inside the bytes its register carries.  Both for parameters and results.
-    (Induction over the flattened field list with the running-offset invariant: `splitLoop_spec`.) -/
-theorem amd64_classify_sound (t : CType) (h : t.view.natural) (isRet : Bool) :
+/-- **Classification soundness of the current code, for EVERY type of the universe** — structs of any number of
+    fields, any nesting, arrays of structs, any padding (only zero-length arrays are excluded, `wf`): the pass kind
+    llgo chooses carries every byte of the object in the register class the psABI assigns: same mode (memory for
+    > 16 bytes, registers otherwise), same number of registers, register `k` has the class of eightbyte `k` and is
+    loaded from object offset `8k`, no register is wider than an eightbyte, and every scalar leaf lies inside the
+    bytes its register carries.  Both for parameters and results.
+    (`goodView_of_wf`: mutual induction over the type with the layout cursor as invariant — aligned, disjoint, in
+    order, no padding run covers a multiple of 8; `getTypeInfo_sound_good`: the classifier on such layouts.) -/
+theorem amd64_classify_sound_repaired (t : CType) (h : t.wf = true) (isRet : Bool) :
+    Sound (classify t isRet) t.view :=
+  classifyV_sound_good t.view (goodView_of_wf t h) isRet
+
+/-- in particular every flat struct — any list of scalar fields -/
+theorem amd64_classify_sound_flat (fs : List Scalar) (isRet : Bool) :
+    Sound (classify (.struct (fs.map .sc)) isRet) (CType.struct (fs.map .sc)).view :=
+  amd64_classify_sound_repaired _ (wf_flat fs) isRet
+
+/-- the statement for ALL value types of the universe, per configuration -/
+def Amd64ClassifySoundFull (c : Cfg) : Prop := ∀ t : CType, t.wf = true → Sound (classifyC c t.view false) t.view
+
+/-- true for the code as it is now -/
+theorem amd64_classify_sound_full : Amd64ClassifySoundFull .repaired :=
+  fun t h => amd64_classify_sound_repaired t h false
+
+/-- false for the code before the fix: `struct { int8 a,b,c,d,e; struct { int8 x; int32 y; } i; }` (16 bytes; `i.x` at
+    8, `i.y` at 12): the legacy split loop runs on the flattened list with a running offset that ignores the padding
+    before the nested struct, the second half becomes `i32` loaded from byte 8, and `i.y` never crosses the boundary. -/
+theorem amd64_classify_counterexample : ¬ Amd64ClassifySoundFull .legacy := by
+  intro h
+  exact absurd (h (.struct [.sc .i8, .sc .i8, .sc .i8, .sc .i8, .sc .i8, .struct [.sc .i8, .sc .i32]]) (by decide)) (by decide)
+
+/-- (legacy) `struct { int8 x; struct { int8 a; int32 b; } i; }`: the second half was the integer type of width 0,
+    which LLVM cannot generate code for -/
+theorem amd64_classify_illformed :
+    (classifyLegacy (.struct [.sc .i8, .struct [.sc .i8, .sc .i32]]) false).wellFormed = false := by decide
+
+/-- (legacy) sound on every type whose flattened scalar list, laid out naturally, reproduces its real layout
+    (induction over the flattened field list with the running-offset invariant of the old split loop) -/
+theorem amd64_classify_sound_legacy (t : CType) (h : t.view.natural) (isRet : Bool) :
     Sound (classifyLegacy t isRet) t.view :=
   classifyV_sound t.view h isRet
 
-/-- every flat struct — any list of scalar fields — satisfies the hypothesis, so for flat structs the
-    statement is unconditional -/
-theorem amd64_classify_sound_flat (fs : List Scalar) (isRet : Bool) :
-    Sound (classifyLegacy (.struct (fs.map .sc)) isRet) (CType.struct (fs.map .sc)).view :=
-  amd64_classify_sound _ (natural_flat fs) isRet
+/-- the fix changed no classification of a naturally laid out shape (in particular of any flat struct) -/
+theorem amd64_repair_conservative (t : CType) (h : t.view.natural) (isRet : Bool) :
+    classify t isRet = classifyLegacy t isRet :=
+  classifyFixedV_eq_natural t.view h isRet
 
 example : (CType.struct [.sc .f32, .array 3 (.sc .i16), .struct [.sc .i16], .sc .f32]).view.natural := by decide
 example : ¬ (CType.struct [.sc .i8, .struct [.sc .i8, .sc .i32]]).view.natural := by decide
+example : (CType.struct [.sc .i8, .array 2 (.struct [.sc .i16, .sc .i8]), .struct [.struct [], .sc .f32]]).wf = true := by decide
 
 /-- objects of more than 16 bytes with ≥ 2 leaves go to memory (byval / sret) on both sides, whatever their nesting -/
 theorem amd64_large_memory (t : CType) (h16 : 16 < t.size) (hn : 2 ≤ t.flatten.length) (isRet : Bool) :
-    classifyLegacy t isRet = .memory ∧ classifyAgg t.size t.elems = .memory := by
+    classify t isRet = .memory ∧ classifyAgg t.size t.elems = .memory := by
   constructor
-  · unfold classifyLegacy classifyLegacyV
+  · unfold classify classifyV
     have h0 : t.view.size ≠ 0 := by show t.size ≠ 0; omega
     rw [if_neg h0]
-    unfold getTypeInfoLegacy
+    unfold getTypeInfo
     rw [if_pos (show t.view.types.length ≥ 2 from hn), if_pos (show t.view.size > 16 from h16)]
   · unfold classifyAgg
     rw [if_neg (by omega), if_pos h16]
 
-/-- the statement for ALL value types of the universe — false on the current tree -/
-def Amd64ClassifySoundFull : Prop := ∀ t : CType, Sound (classifyLegacy t false) t.view
+/-! ## Placement of a whole parameter list (current code) -/
 
-/-- `struct { int8 a,b,c,d,e; struct { int8 x; int32 y; } i; }` (16 bytes; `i.x` at 8, `i.y` at 12): the split
-    loop runs on the flattened list with a running offset that ignores the padding before the nested struct,
-    the second half becomes `i32` loaded from byte 8, and `i.y` never crosses the boundary. -/
-theorem amd64_classify_counterexample : ¬ Amd64ClassifySoundFull := by
-  intro h
-  exact absurd (h (.struct [.sc .i8, .sc .i8, .sc .i8, .sc .i8, .sc .i8, .struct [.sc .i8, .sc .i32]])) (by decide)
+def sigWf (sig : Sig) : Prop := (∀ t ∈ sig.ret, t.wf = true) ∧ ∀ t ∈ sig.params, t.wf = true
 
-/-- `struct { int8 x; struct { int8 a; int32 b; } i; }`: the second half is the integer type of width 0,
-    which LLVM cannot generate code for (llgo crashes while compiling any function with such a parameter) -/
-theorem amd64_classify_illformed :
-    (classifyLegacy (.struct [.sc .i8, .struct [.sc .i8, .sc .i32]]) false).wellFormed = false := by decide
-
-/-- **The proposed repair (fixes/C09-1.diff) changes no classification of a naturally laid out shape**, so it
-    inherits `amd64_classify_sound` there; on the other shapes it is judged by the decidable `Sound` checker on
-    every generated input (design/C09.md). -/
-theorem amd64_repair_conservative (t : CType) (h : t.view.natural) (isRet : Bool) :
-    classifyV t.view isRet = classifyLegacy t isRet ∧ Sound (classifyV t.view isRet) t.view := by
-  have e := classifyFixedV_eq_natural t.view h isRet
-  exact ⟨e, e ▸ amd64_classify_sound t h isRet⟩
-
-/-- … and it classifies the two witnesses of the nested-padding defect soundly -/
-example : Sound (classifyV (CType.struct [.sc .i8, .sc .i8, .sc .i8, .sc .i8, .sc .i8, .struct [.sc .i8, .sc .i32]]).view false)
-    (CType.struct [.sc .i8, .sc .i8, .sc .i8, .sc .i8, .sc .i8, .struct [.sc .i8, .sc .i32]]).view := by decide
-example : Sound (classifyV (CType.struct [.sc .i8, .struct [.sc .i8, .sc .i32]]).view false)
-    (CType.struct [.sc .i8, .struct [.sc .i8, .sc .i32]]).view := by decide
-
-/-! ## Placement of a whole parameter list -/
-
-def sigNatural (sig : Sig) : Prop := (∀ t ∈ sig.ret, t.view.natural) ∧ ∀ t ∈ sig.params, t.view.natural
-
-instance (sig : Sig) : Decidable (sigNatural sig) := by unfold sigNatural; infer_instance
+instance (sig : Sig) : Decidable (sigWf sig) := by unfold sigWf; infer_instance
 
 /-- **Placement soundness, full statement**: llgo's per-parameter classification followed by the x86-64
     convention for the resulting scalar list puts every eightbyte of every argument (and the result) where the
     psABI's sequential assignment puts it.  FALSE on the current tree. -/
-def amd64_placement_sound : Prop := ∀ sig : Sig, implPlace sig = place sig
+def amd64_placement_sound : Prop := ∀ sig : Sig, sigWf sig → implPlace sig = place sig
 
 /-- six `int64` then `struct { double d; int8 b; }`: the psABI passes the struct in memory as a whole (no
     INTEGER register is left for its second eightbyte); llgo passes `d` in XMM0 and `b` on the stack. -/
 theorem amd64_placement_counterexample : ¬ amd64_placement_sound := by
   intro h
   exact absurd (h ⟨none, [.sc .i64, .sc .i64, .sc .i64, .sc .i64, .sc .i64, .sc .i64,
-    .struct [.sc .f64, .sc .i8]]⟩) (by decide)
+    .struct [.sc .f64, .sc .i8]]⟩ (by decide)) (by decide)
 
 /-- **Placement, sharp form**: equal placement whenever no argument is *split* (all its eightbytes get
-    registers, or none of them could). -/
-theorem amd64_placement_nosplit (sig : Sig) (hn : sigNatural sig) (h : noSplit sig = true) :
+    registers, or none of them could) — for every signature over the universe. -/
+theorem amd64_placement_nosplit (sig : Sig) (hn : sigWf sig) (h : noSplit sig = true) :
     implPlace sig = place sig := by
-  have hret : implRet (sig.ret.map CType.view) = placeRet (sig.ret.map CType.view) := by
+  have hret : implRetC classifyV (sig.ret.map CType.view) = placeRet (sig.ret.map CType.view) := by
     apply implRet_eq
     intro v hv
     simp only [Option.mem_def, Option.map_eq_some_iff] at hv
     obtain ⟨t, ht, rfl⟩ := hv
-    exact hn.1 t ht
-  unfold implPlace place implPlaceV placeV
+    exact clsOK_good _ (goodView_of_wf t (hn.1 t ht))
+  unfold implPlace implPlaceC place placeV
   rw [hret]
   congr 1
   apply placeArgs_eq
@@ -111,12 +113,12 @@ theorem amd64_placement_nosplit (sig : Sig) (hn : sigNatural sig) (h : noSplit s
   · intro v hv
     simp only [List.mem_map] at hv
     obtain ⟨t, ht, rfl⟩ := hv
-    exact hn.2 t ht
+    exact clsOK_good _ (goodView_of_wf t (hn.2 t ht))
   · exact h
 
 /-- **Placement, partial**: under `fitsInRegs sig` — every aggregate that the psABI passes in registers still
     finds all the registers its eightbytes need — the placements agree. -/
-theorem amd64_placement_partial (sig : Sig) (hn : sigNatural sig) (h : fitsInRegs sig = true) :
+theorem amd64_placement_partial (sig : Sig) (hn : sigWf sig) (h : fitsInRegs sig = true) :
     implPlace sig = place sig := by
   apply amd64_placement_nosplit sig hn
   unfold noSplit
@@ -128,16 +130,16 @@ theorem amd64_placement_partial (sig : Sig) (hn : sigNatural sig) (h : fitsInReg
   · intro v hv
     simp only [List.mem_map] at hv
     obtain ⟨t, ht, rfl⟩ := hv
-    exact hn.2 t ht
+    exact (clsOK_good _ (goodView_of_wf t (hn.2 t ht))).few
   · exact h
 
 /-- the hypotheses are satisfiable by a non-trivial signature: a 24-byte result (sret), scalars of both classes,
-    a mixed two-eightbyte struct, a three-float struct and a large struct -/
+    a mixed two-eightbyte struct, a nested struct with padding, a three-float struct and a large struct -/
 example :
     let sig : Sig := ⟨some (.struct [.sc .i64, .sc .i64, .sc .i64]),
-      [.sc .i32, .struct [.sc .f64, .sc .i8], .sc .f32, .struct [.sc .f32, .sc .f32, .sc .f32],
-       .struct [.sc .i64, .sc .i64, .sc .i64], .sc .ptr]⟩
-    sigNatural sig ∧ fitsInRegs sig = true := by decide
+      [.sc .i32, .struct [.sc .f64, .sc .i8], .sc .f32, .struct [.sc .i8, .struct [.sc .i8, .sc .i32]],
+       .struct [.sc .f32, .sc .f32, .sc .f32], .struct [.sc .i64, .sc .i64, .sc .i64], .sc .ptr]⟩
+    sigWf sig ∧ fitsInRegs sig = true := by decide
 
 /-- not every register-exhausted signature is affected: both eightbytes INTEGER and no INTEGER register left -/
 example :
